@@ -206,6 +206,8 @@ let run_op (op : string) (r : rd) : unit =
   | "common_prefix_all" -> put_list put_str (Paths.common_prefix_all (get_list r (fun r -> get_list r get_str)))
   | "include_chain" -> let rel = get_list r get_str in
                        let d = Paths.include_directive_text rel in put_str d; sp (); put_opt put_str (Paths.directive_name d)
+  | "write_text" -> let foam = get_bool r in let p = get_str r in let ex = get_opt r get_str in let ap = get_bool r in
+                    let d = get_kvs r in put_res put_str (Reader.write_text foam p ex ap d)
   | _ -> raise (Bad ("op:" ^ op))
 
 let () =
